@@ -1470,6 +1470,17 @@ fn sparql_group_primary(input: &str) -> IResult<&str, GroupGraphPattern<'_>> {
 pub fn parse_group_graph_pattern(input: &str) -> IResult<&str, GroupGraphPattern<'_>> {
     let _nesting = SparqlNestingGuard::enter(input)?;
     let (mut input, _) = sparql_char(input, '{')?;
+    // `{ SELECT ... }` is a sub-select wherever a group graph pattern may appear
+    // (the body of GRAPH, of WHERE, of a UNION branch), not a triple pattern
+    // whose subject is the bare word SELECT.
+    if sparql_starts_keyword(input, "SELECT") {
+        let (input, query) = sparql_select_core(input, false)?;
+        let (input, _) = sparql_char(input, '}')?;
+        return Ok((
+            input,
+            GroupGraphPattern::SubQuery(Box::new(SubQuery { query })),
+        ));
+    }
     let mut joined = Vec::new();
     loop {
         input = sparql_skip_ws(input);
